@@ -149,7 +149,24 @@ func checkMine(c mineCase) (h.Info, error) {
 		w = pow.New(c.Workers)
 		workers[c.Workers] = w
 	}
-	nonce, err := w.Mine(ctx, data, target)
+	type res struct {
+		nonce uint64
+		err   error
+	}
+	ch := make(chan res, 1)
+	go func() {
+		n, e := w.Mine(ctx, data, target)
+		ch <- res{n, e}
+	}()
+	var nonce uint64
+	var err error
+	select {
+	case r := <-ch:
+		nonce, err = r.nonce, r.err
+	case <-time.After(180 * time.Second):
+		// termination is property C13's statement, not C11's: inconclusive here
+		h.InfraAndExit("C11", "mine", c, fmt.Sprintf("Mine(data=%x, target=%v, workers=%d) did not return within 180 s (60 s after its context expired); C11 cannot be decided, see C13", []byte(c.Data), target, c.Workers))
+	}
 	if err != nil {
 		return info, fmt.Errorf("Mine(data=%x, target=%v [%s], workers=%d): %v", []byte(c.Data), target, c.Class, c.Workers, err)
 	}
